@@ -250,6 +250,41 @@ def run(ctx):  # noqa: C901, PLR0912, PLR0915
         alln = [n for n in g.real_nodes() if all_src in n.text() and _empty_request_fact(g.facts_at(n))]
         ctx.ob('C20.R2', f'{fi.name}: empty list', bool(alln), 'an empty handle list selects all states', fi=fi)
 
+    # the MDS alternative of GetContextStates compares `state.source_mds` with the handle: the getter hands out what
+    # set_source_mds stored, nothing derived (`... or self.Handle` makes a descriptor without MDS look like its own MDS
+    # and add_descriptor never assigns the real one)
+    sm = repo.func('sdc11073.mdib.descriptorcontainers.AbstractDescriptorContainer.source_mds')
+    rets_sm = [r.value for r in walk_no_nested(sm.node) if isinstance(r, ast.Return) and r.value is not None]
+    ok = bool(rets_sm) and all(isinstance(r, ast.Attribute) and unparse(r) == 'self._source_mds' for r in rets_sm)
+    ctx.ob('C20.R2', 'source_mds is the stored MDS handle', ok,
+           'AbstractDescriptorContainer.source_mds returns the stored handle' if ok else
+           f'source_mds returns {[unparse(r) for r in rets_sm]}: a descriptor that has no MDS assigned yet does not report '
+           f'None, add_descriptor skips the assignment and GetContextStates(<MDS handle>) misses its states', fi=sm)
+    # text width filter: "not wider than requested" needs the order of pm:LocalizedTextWidth (xs < s < m < l < xl < xxl)
+    tw = repo.func('sdc11073.provider.porttypes.localizationservice._tw2i')
+    declared = [v.value for v in repo.cls('sdc11073.xml_types.pm_types.LocalizedTextWidth').assigns.values()
+                if isinstance(v, ast.Constant) and isinstance(v.value, str)]
+    order = None
+    from engine.util import const_str  # noqa: F401
+    lmod = repo.module('sdc11073.provider.porttypes.localizationservice')
+    for n in ast.walk(tw.node):
+        if isinstance(n, ast.Dict) and n.keys and all(isinstance(k, ast.Constant) for k in n.keys) and \
+                all(isinstance(v, ast.Constant) and isinstance(v.value, int) for v in n.values):
+            pairs = sorted(((v.value, k.value) for k, v in zip(n.keys, n.values) if isinstance(k.value, str)))
+            order = [k for _v, k in pairs]
+        if isinstance(n, ast.Call) and call_name(n) == 'index' and isinstance(n.func, ast.Attribute):
+            seq = n.func.value
+            if isinstance(seq, ast.Name):
+                vals = [st.value for st in lmod.tree.body if isinstance(st, (ast.Assign, ast.AnnAssign)) and
+                        unparse(st.targets[0] if isinstance(st, ast.Assign) else st.target) == seq.id and st.value is not None]
+                seq = vals[0] if len(vals) == 1 else seq
+            if isinstance(seq, (ast.Tuple, ast.List)) and all(isinstance(e, ast.Constant) for e in seq.elts):
+                order = [e.value for e in seq.elts if isinstance(e.value, str)]
+    ctx.ob('C20.R4', 'text width order', order == declared and len(declared) == 6,
+           'the text widths are ranked xs < s < m < l < xl < xxl (declaration order of pm:LocalizedTextWidth)'
+           if order == declared else
+           f'_tw2i ranks the text widths as {order}, pm:LocalizedTextWidth declares {declared}: a request for TextWidth l is '
+           f'answered with a wider xl text (or the narrower stored text is ignored)', fi=tw, witness={'ranked': order})
     # ------------------------------------------------------------------ R4
     fl = repo.func(f'{LS}.filter_localized_texts')
     params = [a.arg for a in fl.node.args.args if a.arg != 'self']
